@@ -83,6 +83,25 @@ func GenIngressResources(r *rng.R, w *World) {
 			}
 			sv.Ports = append(sv.Ports, sp)
 		}
+		// goal-directed: a port with a named targetPort listed before a port that omits its targetPort
+		if len(sv.Ports) > 1 && r.P(0.35) {
+			for _, cp := range wl.Ports {
+				if cp.Name != "" {
+					sv.Ports[0].TargetName, sv.Ports[0].TargetNum = cp.Name, 0
+					last := &sv.Ports[len(sv.Ports)-1]
+					last.TargetName, last.TargetNum = "", 0
+					if len(wl.Ports) > 0 && r.P(0.7) { // the defaulted port hits a container port
+						last.Port = rng.Pick(r, wl.Ports).Num
+						for i := 0; i < len(sv.Ports)-1; i++ {
+							if sv.Ports[i].Port == last.Port {
+								last.Port = 9091
+							}
+						}
+					}
+					break
+				}
+			}
+		}
 		if len(sv.Ports) > 1 { // multi-port services need names
 			for i := range sv.Ports {
 				if sv.Ports[i].Name == "" {
